@@ -16,7 +16,7 @@ LEVEL_TEXT = (
     'swaps whole labels; (b) original untouched — every in-place array write inside the update / assign / fill / shift / drop / '
     'astype workers targets an array allocated in the same function (typestate, as C01-R3); (c) drop removes values and labels with '
     'the same key per axis; (d) FrameAssignILoc sorts the column key with key_to_ascending_key and uses that same key to align and to '
-    'assign; (e) the bloc coordinate writer/reader agree. Option forwarding: in every functional-update interface each call to a resolved callee that accepts a parameter named like one of the function\'s own parameters passes it on (confirmed exceptions listed in sfa/rules/forwardrules.py). Configured generic check: no np attribute removed from the pinned NumPy 2.x is referenced in core (np.in1d made isin / label-aligned fillna raise). Sibling defaults: a parameter taken by the same-named method of several container classes has the same default in each (confirmed exceptions listed in sfa/rules/forwardrules.py). rename / relabel of a grown hierarchical index: every read of the lazily cached IndexHierarchy table is dominated by the staleness guard (B.recache). Slice cardinality: every `<slice>.indices(n)` result in core is consumed whole or any stop - start span is computed with the step (single-row detection, assigned widths and fill limits count stepped slices correctly). Aligned positional stores: a labelled value stored into selected positions is reindexed to the own labels of the receiver at exactly those positions (same key for alignment and store). Optional labels: a label parameter defaulting to None is tested by identity, never by truthiness (relabel_level_add adds a level 0 / "" too). Index rebuilds: an index rebuilt from an existing one through its own class carries that index\'s name (astype of a hierarchical index, insert_before / insert_after). Derived flags: a local recording a fact about an array (any / all / sum / len) is not tested after that array was changed in place (a block is passed through untouched exactly when the narrowed mask is empty). Copies behind relabel / rename: every raw TypeBlocks constructor call (TypeBlocks.__copy__) hands over fresh copies of the block list, dtype list and index list, so growing the result never changes the source (I.typeblocks-raw-constructor). Not decided: the block-splicing arithmetic of _assign_from_*, get_block_match, '
+    'assign; (e) the bloc coordinate writer/reader agree. Option forwarding: in every functional-update interface each call to a resolved callee that accepts a parameter named like one of the function\'s own parameters passes it on (confirmed exceptions listed in sfa/rules/forwardrules.py). Configured generic check: no np attribute removed from the pinned NumPy 2.x is referenced in core (np.in1d made isin / label-aligned fillna raise). Sibling defaults: a parameter taken by the same-named method of several container classes has the same default in each (confirmed exceptions listed in sfa/rules/forwardrules.py). rename / relabel of a grown hierarchical index: every read of the lazily cached IndexHierarchy table is dominated by the staleness guard (B.recache). Slice cardinality: every `<slice>.indices(n)` result in core is consumed whole or any stop - start span is computed with the step (single-row detection, assigned widths and fill limits count stepped slices correctly). Aligned positional stores: a labelled value stored into selected positions is reindexed to the own labels of the receiver at exactly those positions (same key for alignment and store). Optional labels: a label parameter defaulting to None is tested by identity, never by truthiness (relabel_level_add adds a level 0 / "" too). Index rebuilds: an index rebuilt from an existing one through its own class carries that index\'s name (astype of a hierarchical index, insert_before / insert_after). Derived flags: a local recording a fact about an array (any / all / sum / len) is not tested after that array was changed in place (a block is passed through untouched exactly when the narrowed mask is empty). Copies behind relabel / rename: every raw TypeBlocks constructor call (TypeBlocks.__copy__) hands over fresh copies of the block list, dtype list and index list, so growing the result never changes the source (I.typeblocks-raw-constructor). Descending keys: slice_to_ascending_slice restates negative bounds as positions (or normalises with .indices) before computing the ascending slice that mask / drop / astype use. Not decided: the block-splicing arithmetic of _assign_from_*, get_block_match, '
     'value alignment of labelled values.')
 
 CLAIM = dict(
@@ -52,3 +52,4 @@ def run(ctx: Ctx) -> None:
     blockrules.slice_cardinality(ctx)
     flowmisc.stale_derived_flag(ctx)
     blockrules.raw_constructor_sites(ctx)
+    blockrules.descending_slice_normalised(ctx)
